@@ -181,6 +181,26 @@ def partitions(tier, seed):
         bound='Queue.Declare.arguments with field names of <= 128 characters and up to 255 UTF-8 bytes',
         rep={'ch': 1, 'n': -129, 'durable': True}))
     parts.append(Part(
+        name='text_samples', params=[('ch', 'int'), ('tag', 'int')],
+        pre=['0 <= ch <= 65535', '-2**63 <= tag < 2**63'],
+        body='def body(ch, tag):\n'
+             '    ok = True\n'
+             '    for s in ("\\ufeffabc", "\\ufeff", "a\\ufeff", "\\ufffe", "\\x00", "\\U0001f600\\U0010ffff", "e\\u0301", "\\uffff", ""):\n'
+             '        frames = [commands.Connection.Secure(s), commands.Connection.StartOk(None, s, s, s),\n'
+             '                  commands.Basic.Deliver(s, tag, False, "ex", s), commands.Connection.Start(0, 9, None, s, s)]\n'
+             '        for m in frames:\n'
+             '            data = hx.fix(frame.marshal(m, ch))\n'
+             '            c, chan, f = frame.unmarshal(data)\n'
+             '            ok = ok and c == len(data) and chan == ch and type(f) is type(m)\n'
+             '            for k, v in m:\n'
+             '                if isinstance(v, str):\n'
+             '                    ok = ok and getattr(f, k) == v and type(getattr(f, k)) is str\n'
+             '    return ok\n',
+        prelude=common.PRELUDE, timeout=200, family='rt_method_lenprefix',
+        bound='9 concrete texts (byte-order mark first / alone / last, U+FFFE, NUL, astral, combining) through '
+              'every short- and long-string argument of four classes',
+        rep={'ch': 1, 'tag': 5}))
+    parts.append(Part(
         name='table_values_in_method', params=[('ch', 'int'), ('n', 'int'), ('flag', 'bool')],
         pre=['0 <= ch <= 65535', '-2**63 <= n < 2**63'],
         body='def body(ch, n, flag):\n'
